@@ -254,7 +254,7 @@ def collect(ctx, n, _unused=0):
 
 def run(ctx):
     status = coqbuild.prove("C12", THEOREMS)
-    agg, items, corr, cases = collect(ctx, 60 if ctx.quick else 800)
+    agg, items, corr, cases = collect(ctx, 60 if ctx.quick else 2400)
     for cls, det, c in items:
         ctx.item(cls, {"stage": "`cdd sync` on generated file triples (cdd.__main__.main)", "clause": cls,
                        "input": {"truth": c["truth"], "states": c["states"], "runs": c["runs"], "gold": T.jsonable(c["gold"])} if c else None,
